@@ -34,11 +34,17 @@ def make_schema(field_boosts=False, chars=False, vector=False, sortable=False):
     )
 
 
-def gen_doc(rng, key, maxlen=6, sparse=0.15, boosts=False):
-    """A model document: plain dict; absent fields are simply missing."""
+def gen_doc(rng, key, maxlen=6, sparse=0.15, boosts=False, burst=0.0):
+    """A model document: plain dict; absent fields are simply missing.
+    burst: probability that one word is repeated 3..10 times (a few documents with much higher term
+    weights than their posting block neighbours: what makes block-quality skipping bite)."""
     d = {"id": str(key)}
     if rng.random() > sparse:
-        d["t"] = " ".join(zipf_choice(rng, VOCAB) for _ in range(rng.randint(0, maxlen)))
+        words = [zipf_choice(rng, VOCAB) for _ in range(rng.randint(0, maxlen))]
+        if burst and rng.random() < burst:
+            words += [zipf_choice(rng, VOCAB[:6])] * rng.randint(3, 10)
+            rng.shuffle(words)
+        d["t"] = " ".join(words)
     if rng.random() > 0.5:
         d["u"] = " ".join(zipf_choice(rng, VOCAB[:8]) for _ in range(rng.randint(1, 4)))
     if rng.random() > sparse:
@@ -53,12 +59,12 @@ def gen_doc(rng, key, maxlen=6, sparse=0.15, boosts=False):
 
 
 def gen_history(rng, ndocs=(1, 40), nseg=(1, 4), delete_modes=("none", "none", "few", "many", "segment"),
-                maxlen=6, boosts=False):
+                maxlen=6, boosts=False, burst=0.0):
     """History = list of commits (each a list of model docs, merge=False) + a final delete set.
     Returns dict(commits=[[doc..]..], deletes=[key..], blocklimit=int, storage='ram'|'file')."""
     n = rng.randint(*ndocs)
     segs = rng.randint(*nseg)
-    docs = [gen_doc(rng, i, maxlen=maxlen, boosts=boosts) for i in range(n)]
+    docs = [gen_doc(rng, i, maxlen=maxlen, boosts=boosts, burst=burst) for i in range(n)]
     cuts = sorted(rng.sample(range(1, n), min(segs - 1, max(0, n - 1)))) if n > 1 else []
     commits, prev = [], 0
     for c in cuts + [n]:
@@ -485,3 +491,43 @@ def gen_skip_stress(rng):
     if isinstance(q, query.Term):
         q = query.And([q, term()])
     return q
+
+
+def gen_big_history(rng, small_first=False):
+    """One BIG sparse segment (2100..4600 documents, more than one 2048-document buffer part of the array
+    union matcher), optionally preceded by a small dense segment (which fills a top-N heap first). Most documents
+    of the big segment carry no text; matching documents sit in clusters and around the part boundaries."""
+    n = rng.randint(2100, 4600)
+    hot = set()
+    for base in (0, 2048, 4096):
+        for off in (-3, -2, -1, 0, 1, 2, 5):
+            if 0 <= base + off < n and rng.random() < 0.5:
+                hot.add(base + off)
+    for _ in range(rng.randint(3, 30)):
+        c = rng.randrange(n)
+        for j in range(rng.randint(1, 6)):
+            if c + j < n:
+                hot.add(c + j)
+    commits = []
+    key = 0
+    if small_first:
+        first = []
+        for _ in range(rng.randint(20, 60)):
+            first.append(gen_doc(rng, key, maxlen=6, sparse=0.0, burst=0.1))
+            key += 1
+        commits.append(first)
+    big = []
+    for i in range(n):
+        if i in hot:
+            d = gen_doc(rng, key, maxlen=5, sparse=0.0, burst=0.3)
+        else:
+            d = {"id": str(key)}
+            if rng.random() < 0.02:
+                d["n"] = rng.randint(-5, 5)
+        big.append(d)
+        key += 1
+    commits.append(big)
+    deletes = []
+    if rng.random() < 0.4:
+        deletes = [big[i]["id"] for i in rng.sample(sorted(hot), min(len(hot), rng.randint(1, 5)))]
+    return {"commits": commits, "deletes": deletes, "blocklimit": rng.choice([4, 128]), "storage": "ram"}
